@@ -17,27 +17,38 @@ from vp.ref import tri as R
 PROPERTY = "C20"
 TECHNIQUE = ("property-based testing (Hypothesis) plus exhaustive enumeration of small lattice sets, against a "
              "plain-numpy geometric oracle (barycentric containment, separating-axis disjointness, explicit line "
-             "reflection) and cross-representation round trips")
+             "reflection) and cross-representation round trips; scale-free tolerances over 18 decades of side length "
+             "and 30-40 step zoom histories")
 RULE = (
-    "A case is a triangle set plus a history of 1-4 operations (up_sample / neighborhood / for_indexes) and 2-3 "
-    "shapes. Sets come from (coords_ops) arbitrary distinct integer coordinates (cluster, block, row, hexagon, scatter "
-    "families; both lattice parities), side length in [0.05,20], offsets in [-50,50], flipped both ways; "
-    "(limits_coord) CoordinateArrayTriangles.for_limits_and_scale; (limits_array) ArrayTriangles."
-    "for_limits_and_scale; (enum_small) every single coordinate in [-2,2]^2 and every 2-3 subset of a 3x2 lattice "
-    "window, flipped both ways. Every coordinate set is run in both representations in parallel (the coordinate "
-    "object and `with_vertices(vertices)`), each operation is checked against the previous state of the same "
-    "representation and the two representations are compared after every operation. Oracle after up_sample: count "
-    "x4, len x4, summed area and `.area` conserved (1e-9 rel), every parent strictly contains (barycentric > 1e-9) "
-    "the centroids of exactly 4 x multiplicity children, those are 4 geometrically distinct triangles of area "
-    "parent/4 (1e-9 rel) whose vertices lie in the closed parent (barycentric >= -1e-9) and whose interiors are "
-    "pairwise disjoint (separating axis), no child is outside every parent, every parent vertex is within tol of a "
-    "child vertex and of `.vertices`. After neighborhood: set of returned triangles == originals U mirror images "
-    "across each edge (explicit line reflection), compared as sets of vertex sets at tol. for_indexes: same "
-    "triangles as those selected (as a set, equal count). containing_indices(shape): every triangle that contains "
-    "the shape's reference point with barycentric margin >= 0.01 is reported (point placed with weights >= 0.05 in "
-    "a chosen triangle), and a reference point that is bitwise equal to a vertex of the chosen triangle is reported "
-    "for that triangle. tol = 1e-9*side + 64*eps*max|coordinate|. Non-trivial = the initial set has >= 3 triangles "
-    "and contains both apex-up and apex-down triangles; distinct = SHA-1 of the canonical case."
+    "A case is a triangle set plus a history of operations (up_sample / neighborhood / for_indexes / zoom = "
+    "containing_indices(point) then for_indexes) and 2-3 shapes. Sets come from (coords_ops) arbitrary distinct "
+    "integer coordinates (cluster, block, row, hexagon, scatter families; both lattice parities), flipped both "
+    "ways, in three magnitude regimes: unit (side in [0.05,20], offsets in [-50,50]), scaled (side 2**k, k in "
+    "[-40,20], or a power of ten 1e-10..1e6, offsets a small multiple of the side) and offset-dominated (side "
+    "2**k, k in [-30,-5], offsets O(1)); (limits_coord) CoordinateArrayTriangles.for_limits_and_scale and "
+    "(limits_array) ArrayTriangles.for_limits_and_scale over the same scale regimes; (zoom) the solver loop "
+    "up_sample -> containing_indices(Point) -> for_indexes [-> neighborhood] repeated 30-40 times from side 1 (or "
+    "2**k), which reaches side ~1e-10..1e-12, run independently on the coordinate object, on its with_vertices "
+    "form and on an ArrayTriangles lattice; (enum_small) every single coordinate in [-2,2]^2 and every 2-3 subset "
+    "of a 3x2 lattice window, flipped both ways. Every coordinate set is run in both representations in parallel, "
+    "each operation is checked against the previous state of the same representation and the two representations "
+    "are compared after every operation (until a zoom step makes them select differently). All tolerances are "
+    "relative to the current side S: tol = 1e-9*S + 64*eps*max|coordinate| (distance), rel = tol/S capped at 0.02 "
+    "(barycentric slack 1e-9+4*rel, area rtol 1e-9+8*rel). Oracle after up_sample: count x4, len x4, summed area and "
+    "`.area` conserved, every parent strictly contains the centroids of exactly 4 x multiplicity children, those "
+    "are 4 geometrically distinct triangles of area parent/4 whose vertices lie in the closed parent and whose "
+    "interiors are pairwise disjoint (separating axis), no child is outside every parent, every parent vertex is "
+    "within tol of a child vertex and of `.vertices`. After neighborhood: set of returned triangles == originals U "
+    "mirror images across each edge (explicit line reflection), compared as sets of vertex sets at tol. "
+    "for_indexes: same triangles as those selected (as a set, equal count). containing_indices(shape): every "
+    "triangle that contains the shape's reference point with barycentric margin >= 0.01 is reported (point placed "
+    "with weights >= 0.05 in a chosen triangle: generic, near an edge, near a vertex, at the centroid), and a "
+    "reference point bitwise equal to a vertex of the chosen triangle is reported for that triangle; shapes are "
+    "zero-size, tiny, or comparable to the triangle (extent 0.3x-3x the side, boxes and polygons with aspect 1:1 "
+    "and 2:1-4:1 both ways), half of the comparable boxes / triangles / polygons are aimed so that the shape "
+    "covers the centroid of a neighbouring triangle of the set (in the natural and in the transposed reading of "
+    "the polygon vertices) but usually not the containing triangle's. Non-trivial = the initial set has >= 3 "
+    "triangles and contains both apex-up and apex-down triangles; distinct = SHA-1 of the canonical case."
 )
 ASSUMPTIONS = [
     "all sets in the quantifier's domain are subsets (with possible repeats) of one equilateral lattice, so two "
@@ -51,6 +62,13 @@ ASSUMPTIONS = [
     "empty set whose `.triangles` cannot be evaluated); nothing is claimed about how well the limits are covered",
     "column 0 of a vertex is what the shapes call x (the vertex-array lattice stores (y, x) pairs; the check is "
     "agnostic to the naming)",
+    "double precision limits the scale-free claim: a vertex at distance |c| from the origin is only known to "
+    "eps*|c|, so comparisons carry 64*eps*max|coordinate| of slack; the generator keeps that below 2% of the side "
+    "(zoom depth <= 40 from side 1 with |coordinate| <= ~2); in a zoom step the point may fall within 1% of a "
+    "child edge, then nothing is demanded of containing_indices for that step (counted as a tie)",
+    "for a circle the class 'covers a neighbour's centroid but not the containing triangle's' is empty on a "
+    "lattice (the containing triangle's centroid is the nearest one), so it exists for boxes, triangles and "
+    "polygons only",
     "jax variants are not importable in this environment and are not covered",
     "numba is absent (irrelevant here: the triangle code is plain numpy)",
 ]
@@ -58,6 +76,7 @@ ASSUMPTIONS = [
 BARY_IN = 1e-9      # strict containment margin for child centroids (true value is >= 1/6)
 BARY_CLOSED = 1e-9  # closed containment slack for child vertices
 AREA_RTOL = 1e-9
+REL_CAP = 0.02
 MAX_UP = 160        # an up_sample is executed only on sets of at most this many triangles
 MAX_NB = 300
 
@@ -70,8 +89,13 @@ def _classes():
 
 
 def _tol(T, S):
+    """Distance tolerance, relative to the side S plus the unavoidable rounding of the coordinates."""
     m = float(np.max(np.abs(T))) if T.size else 0.0
-    return 1e-9 * S + 64.0 * R.EPS * max(1.0, m)
+    return min(1e-9 * S + 64.0 * R.EPS * m, REL_CAP * S) if S > 0 else 64.0 * R.EPS * m
+
+
+def _rel(T, S):
+    return _tol(T, S) / S
 
 
 def _oname(o):
@@ -98,11 +122,11 @@ class Rep:
 # ---------------------------------------------------------------------------------------------
 # oracles
 # ---------------------------------------------------------------------------------------------
-def check_state(ctx, rep):
+def check_state(ctx, rep, S):
     n = len(rep.T)
     ctx.check(len(rep.obj) == n, "len/%s" % rep.name, "len()=%s but .triangles has %d rows" % (len(rep.obj), n))
     want = float(R.areas(rep.T).sum())
-    ctx.close(float(rep.obj.area), want, "area/%s" % rep.name, rtol=AREA_RTOL, atol=0.0,
+    ctx.close(float(rep.obj.area), want, "area/%s" % rep.name, rtol=AREA_RTOL + 8 * _rel(rep.T, S), atol=0.0,
               what=".area vs sum of cross-product areas of .triangles")
 
 
@@ -113,13 +137,15 @@ def check_up(ctx, name, T, child_obj, S):
     ctx.check(C.shape[0] == 4 * n, key + "/count", "%d parents -> %d children" % (n, C.shape[0]))
     ctx.check(len(child_obj) == 4 * n, key + "/count", "len()=%s, want %d" % (len(child_obj), 4 * n))
     tolv = _tol(T, S)
+    rel = _rel(T, S)
+    b_in, b_closed, a_rtol = BARY_IN + 4 * rel, BARY_CLOSED + 4 * rel, AREA_RTOL + 8 * rel
     aP, aC = R.areas(T), R.areas(C)
-    ctx.close(aC.sum(), aP.sum(), key + "/total-area", rtol=AREA_RTOL, what="summed child area vs summed parent area")
-    ctx.close(float(child_obj.area), aP.sum(), key + "/total-area", rtol=AREA_RTOL, what=".area after up_sample")
+    ctx.close(aC.sum(), aP.sum(), key + "/total-area", rtol=a_rtol, what="summed child area vs summed parent area")
+    ctx.close(float(child_obj.area), aP.sum(), key + "/total-area", rtol=a_rtol, what=".area after up_sample")
     ori = R.orientation(T, tolv)
 
-    inside = R.min_bary(T, C.mean(axis=1)) > BARY_IN          # (n, 4n): child centroid strictly in parent
-    mult = (R.min_bary(T, T.mean(axis=1)) > BARY_IN).sum(axis=1)  # how many parents coincide with parent i
+    inside = R.min_bary(T, C.mean(axis=1)) > b_in          # (n, 4n): child centroid strictly in parent
+    mult = (R.min_bary(T, T.mean(axis=1)) > b_in).sum(axis=1)  # how many parents coincide with parent i
     orphan = np.nonzero(inside.sum(axis=0) == 0)[0]
     ctx.check(len(orphan) == 0, key + "/tiling/orphan",
               lambda: "child %d %s lies in no parent" % (orphan[0], C[orphan[0]].tolist()))
@@ -133,10 +159,11 @@ def check_up(ctx, name, T, child_obj, S):
             continue
         K = C[kids]
         q = aP[i] / 4.0
-        ctx.check(bool(np.all(np.abs(aC[kids] - q) <= AREA_RTOL * q)), "%s/child-area/%s" % (key, o),
-                  lambda: "parent %d area %r: child areas %s, want %r each" % (i, aP[i], aC[kids].tolist(), q))
+        ctx.check(bool(np.all(np.abs(aC[kids] - q) <= a_rtol * q)), "%s/child-area/%s" % (key, o),
+                  lambda: "parent %d area %r: child areas %s, want %r each (rtol %g)" % (
+                      i, aP[i], aC[kids].tolist(), q, a_rtol))
         vb = R.min_bary(T[i:i + 1], K.reshape(-1, 2))[0]
-        ctx.check(bool(np.all(vb >= -BARY_CLOSED)), "%s/tiling/%s" % (key, o),
+        ctx.check(bool(np.all(vb >= -b_closed)), "%s/tiling/%s" % (key, o),
                   lambda: "parent %d %s: a child vertex lies outside it (min barycentric %r); children %s" % (
                       i, T[i].tolist(), float(vb.min()), K.tolist()))
         first = R.match(K, K, tolv)
@@ -162,8 +189,8 @@ def check_up(ctx, name, T, child_obj, S):
         d = np.abs(pv[:, None, :] - cv[None, :, :]).max(axis=-1).min(axis=1)
         j = int(np.argmax(d))
         ctx.check(bool(d[j] <= tolv), key + "/vertex-kept",
-                  lambda: "parent vertex %s is %r away from the nearest vertex in %s (tol %r)" % (
-                      pv[j].tolist(), float(d[j]), what, tolv))
+                  lambda: "parent vertex %s is %r away from the nearest vertex in %s (tol %r, side %r)" % (
+                      pv[j].tolist(), float(d[j]), what, tolv, S))
     return C
 
 
@@ -231,9 +258,11 @@ def check_xrep_index(ctx, coord_rep, S):
         h = np.maximum(d.min(axis=2).max(axis=1), d.min(axis=1).max(axis=1))
         j = int(np.argmax(h))
         ctx.check(bool(h[j] <= _tol(T, S)), "xrep/with_vertices",
-                  lambda: "triangle %d differs between representations: %s vs %s" % (j, T[j].tolist(), A[j].tolist()))
+                  lambda: "triangle %d differs between representations: %s vs %s (side %r)" % (
+                      j, T[j].tolist(), A[j].tolist(), S))
     ctx.check(len(arr) == len(obj), "xrep/with_vertices", "len differs: %s vs %s" % (len(arr), len(obj)))
-    ctx.close(float(arr.area), float(obj.area), "xrep/area", rtol=AREA_RTOL, what="area of the two representations")
+    ctx.close(float(arr.area), float(obj.area), "xrep/area", rtol=AREA_RTOL + 8 * _rel(T, S),
+              what="area of the two representations")
 
 
 def check_xrep_set(ctx, a, b, S, op):
@@ -252,39 +281,138 @@ def check_xrep_set(ctx, a, b, S, op):
         op, b.name, b.T[miss[0]].tolist(), a.name))
 
 
+# ---------------------------------------------------------------------------------------------
+# shapes
+# ---------------------------------------------------------------------------------------------
+def _weights(spec):
+    place = spec.get("place") or {"mode": "generic", "u": spec["u"]}
+    mode = place["mode"]
+    if mode == "generic":
+        u = np.array(place["u"], dtype=float)
+        w = np.full(3, 1.0 / 3.0) if u.sum() < 1e-9 else 0.05 + 0.85 * (u / u.sum())
+    elif mode == "near-edge":      # within 5-8% of the edge opposite vertex e, anywhere along it
+        we = 0.05 + 0.03 * place["a"]
+        t = 0.1 + 0.8 * place["t"]
+        w = np.empty(3)
+        e = place["e"] % 3
+        w[e], w[(e + 1) % 3], w[(e + 2) % 3] = we, (1 - we) * t, (1 - we) * (1 - t)
+    elif mode == "near-vertex":    # 5% + 5% away from vertex e
+        w = np.full(3, 0.05)
+        w[place["e"] % 3] = 0.9
+    elif mode == "centroid":
+        w = np.full(3, 1.0 / 3.0)
+    else:
+        raise AssertionError("harness: unknown placement %r" % mode)
+    if abs(w.sum() - 1.0) > 1e-12 or w.min() < 0.05 - 1e-12:
+        raise AssertionError("harness: bad barycentric weights %r" % (w,))
+    return w, mode
+
+
 def _ref_point(spec, tk):
     if spec["at"] == "vertex":
         v = tk[spec["corner"] % 3]
         return float(v[0]), float(v[1])
-    u = np.array(spec["u"], dtype=float)
-    w = np.full(3, 1.0 / 3.0) if u.sum() < 1e-9 else 0.05 + 0.85 * (u / u.sum())
-    if abs(w.sum() - 1.0) > 1e-12 or w.min() < 0.05 - 1e-12:
-        raise AssertionError("harness: bad barycentric weights %r" % (w,))
+    w, _ = _weights(spec)
     p = w @ tk
     return float(p[0]), float(p[1])
 
 
-def _make_shape(spec, p, S):
-    """Build the shape so that its reference point (centre / mean of vertices) is p."""
+def _others(T, k, p, S):
+    """Indices of the triangles of the set that do not coincide with triangle k, nearest centroid first."""
+    c = T.mean(axis=1)
+    far = np.nonzero(np.abs(c - c[k]).max(axis=1) > 0.1 * S)[0]
+    d = np.hypot(c[far, 0] - p[0], c[far, 1] - p[1])
+    return far[np.argsort(d, kind="stable")], c
+
+
+def _shape_vertices(spec, p, S, T, k):
+    """Vertex list of a triangle / polygon shape whose vertex mean is p."""
+    pa = np.array(p)
+    d = spec.get("directed")
+    q = None
+    if d:
+        others, c = _others(T, k, p, S)
+        if len(others):
+            cj = c[others[d["j"] % min(3, len(others))]]
+            tgt = cj if d["reading"] == "natural" else cj[::-1]   # the point the polygon is aimed at
+            ax = tgt - pa
+            if np.hypot(ax[0], ax[1]) > 1e-3 * S:
+                nrm = np.array([-ax[1], ax[0]]) * d["w"]
+                if spec["kind"] == "triangle":
+                    q = np.array([2 * ax, -ax + nrm, -ax - nrm])
+                else:   # kite whose fan diagonal stays off the axis, so the target is strictly inside one fan part
+                    q = np.array([2 * ax, -0.5 * ax + nrm, -ax - 0.3 * nrm, -0.5 * ax - 0.7 * nrm])
+    if q is None:
+        n = len(spec["pts"])
+        sx, sy = spec.get("stretch", [1.0, 1.0])
+        q = np.array([[sx * r * S * math.cos(2 * math.pi * (i + j) / n), sy * r * S * math.sin(2 * math.pi * (i + j) / n)]
+                      for i, (r, j) in enumerate(spec["pts"])])
+    q = q - q.mean(axis=0) + pa
+    return [(float(a), float(b)) for a, b in q]
+
+
+def _make_shape(spec, p, S, T, k):
+    """Build the shape so that its reference point (centre / mean of vertices) is p.  Returns the shape and a
+    geometric description used only for classification labels."""
     _, _, sh = _classes()
     kind = spec["kind"]
     px, py = p
     exact = spec["at"] == "vertex"
     if kind == "point":
-        return sh.Point(px, py)
+        return sh.Point(px, py), ("point",)
     if kind == "circle":
-        return sh.Circle(px, py, 0.0 if exact else spec["r"] * S)
+        r = 0.0 if exact else spec["r"] * S
+        return sh.Circle(px, py, r), ("circle", r)
     if kind == "square":
         hx, hy = (0.0, 0.0) if exact else (spec["hx"] * S, spec["hy"] * S)
-        return sh.Square(top=py - hy, bottom=py + hy, left=px - hx, right=px + hx)
-    n = len(spec["pts"])
-    q = np.array([[r * S * math.cos(2 * math.pi * (i + j) / n), r * S * math.sin(2 * math.pi * (i + j) / n)]
-                  for i, (r, j) in enumerate(spec["pts"])])
-    q = q - q.mean(axis=0) + np.array([px, py])
-    verts = [(float(a), float(b)) for a, b in q]
+        d = spec.get("directed")
+        if d and not exact:
+            others, c = _others(T, k, p, S)
+            if len(others):
+                cj = c[others[d["j"] % min(3, len(others))]]
+                hx = abs(cj[0] - px) * (1 + d["mx"]) + 1e-3 * S
+                hy = abs(cj[1] - py) * (1 + d["my"]) + 1e-3 * S
+        return sh.Square(top=py - hy, bottom=py + hy, left=px - hx, right=px + hx), ("square", hx, hy)
+    verts = _shape_vertices(spec, p, S, T, k)
     if kind == "triangle":
-        return sh.Triangle(*verts)
-    return sh.Polygon(verts)
+        return sh.Triangle(*verts), ("poly", verts)
+    return sh.Polygon(verts), ("poly", verts)
+
+
+def _covered(desc, p, pts):
+    """Which of the points `pts` (centroids of the set's triangles) lie in the shape's own extent
+    (classification only): circle, box, or polygon fan in the natural or the transposed reading."""
+    if desc[0] == "point":
+        return np.zeros(len(pts), dtype=bool)
+    if desc[0] == "circle":
+        return (pts[:, 0] - p[0]) ** 2 + (pts[:, 1] - p[1]) ** 2 <= desc[1] ** 2
+    if desc[0] == "square":
+        return (np.abs(pts[:, 0] - p[0]) <= desc[1]) & (np.abs(pts[:, 1] - p[1]) <= desc[2])
+    v = np.array(desc[1])
+    out = np.zeros(len(pts), dtype=bool)
+    for vv in (v, v[:, ::-1]):
+        fan = np.array([[vv[0], vv[i], vv[i + 1]] for i in range(1, len(vv) - 1)])
+        out |= (R.min_bary(fan, pts) >= 0).any(axis=0)
+    return out
+
+
+def _extent_class(desc, S):
+    if desc[0] == "point":
+        return None
+    if desc[0] == "circle":
+        ext = (2 * desc[1], 2 * desc[1])
+    elif desc[0] == "square":
+        ext = (2 * desc[1], 2 * desc[2])
+    else:
+        v = np.array(desc[1])
+        ext = tuple(v.max(axis=0) - v.min(axis=0))
+    big, small = max(ext) / S, min(ext) / S
+    size = "zero" if big == 0 else "tiny" if big < 0.3 else "comparable" if big <= 3.0 + 1e-9 else "large"
+    if big == 0 or desc[0] == "circle":
+        return size, None
+    asp = big / small if small > 0 else float("inf")
+    aspect = "1:1-2:1" if asp < 2 - 1e-9 else "2:1-4:1" if asp <= 4 + 1e-9 else ">4:1"
+    return size, aspect
 
 
 def check_contain(ctx, rep, spec, S):
@@ -294,12 +422,24 @@ def check_contain(ctx, rep, spec, S):
         return
     k = spec["k"] % n
     p = _ref_point(spec, T[k])
-    shape = _make_shape(spec, p, S)
-    # what the implementation will use as reference point must be the point we placed (harness sanity)
-    if abs(float(shape.x) - p[0]) > 1e-6 * S or abs(float(shape.y) - p[1]) > 1e-6 * S:
+    shape, desc = _make_shape(spec, p, S, T, k)
+    # what the implementation will use as reference point must be the point we placed (harness sanity); a
+    # point shape and the zero-extent vertex class reproduce it bitwise, the others to a few ulp of their vertices
+    if desc[0] == "point" or spec["at"] == "vertex":
+        slack = 0.0
+    else:
+        vmax = max([float(np.abs(np.array(desc[1])).max())] if desc[0] == "poly" else
+                   [abs(p[0]) + desc[1], abs(p[1]) + desc[-1]])
+        slack = 8 * R.EPS * vmax
+    if abs(float(shape.x) - p[0]) > slack or abs(float(shape.y) - p[1]) > slack:
         raise AssertionError("harness: shape reference point %r != placed point %r" % ((shape.x, shape.y), p))
+    if slack > 0.01 * S:
+        ctx.label("shape:reference-point-uncertain(skipped)")
+        ctx.tie()
+        return
     res = np.asarray(rep.obj.containing_indices(shape))
     got = set(int(v) for v in res.ravel().tolist())
+    cls = "%s/%s" % (spec["kind"], spec["at"])
     if spec["at"] == "vertex":
         want = {k}
     else:
@@ -308,11 +448,23 @@ def check_contain(ctx, rep, spec, S):
         band = int(np.count_nonzero((mb > -1e-9) & (mb < 0.01)))
         if band:
             ctx.tie(band)
+        ctx.label("place:%s" % _weights(spec)[1])
+        ec = _extent_class(desc, S)
+        if ec:
+            ctx.label("%s:size-%s" % (spec["kind"], ec[0]))
+            if ec[1]:
+                ctx.label("%s:aspect-%s" % (spec["kind"], ec[1]))
+            cov = _covered(desc, p, T.mean(axis=1))
+            same = np.abs(T.mean(axis=1) - T[k].mean(axis=0)).max(axis=1) <= 0.1 * S
+            own, other = bool(cov[same].any()), bool(cov[~same].any())
+            cover = "other-not-own" if other and not own else "own-and-other" if other else "own-only" if own else "none"
+            ctx.label("%s:covers-%s" % (spec["kind"], cover))
+            cls += "/covers-" + cover
     ctx.label("shape:%s/%s" % (spec["kind"], spec["at"]))
     miss = sorted(want - got)
-    ctx.check(not miss, "containing/%s/%s/%s" % (rep.name, spec["kind"], spec["at"]),
-              lambda: "reference point %r lies in triangle %d %s but containing_indices returned %s" % (
-                  p, miss[0], T[miss[0]].tolist(), sorted(got)[:10]))
+    ctx.check(not miss, "containing/%s/%s" % (rep.name, cls),
+              lambda: "reference point %r lies in triangle %d %s but containing_indices returned %s (side %r)" % (
+                  p, miss[0], T[miss[0]].tolist(), sorted(got)[:10], S))
 
 
 # ---------------------------------------------------------------------------------------------
@@ -331,19 +483,44 @@ def _sel_indexes(op, n):
     return out
 
 
-def _after(ctx, reps, S, op, shapes):
+def _after(ctx, reps, S, op, shapes, together):
     for r in reps:
-        check_state(ctx, r)
+        check_state(ctx, r, S)
         if r.name == "coord":
             check_xrep_index(ctx, r, S)
-    if len(reps) == 2:
+    if len(reps) == 2 and together:
         check_xrep_set(ctx, reps[0], reps[1], S, op)
     for r in reps:
         for spec in shapes:
             check_contain(ctx, r, spec, S)
 
 
-def battery(ctx, reps, S, ops, shapes):
+def _zoom_step(ctx, rep, p, S):
+    """containing_indices(Point(p)) -> for_indexes, the way the point solver narrows a set down."""
+    _, _, sh = _classes()
+    T = rep.T
+    res = np.asarray(rep.obj.containing_indices(sh.Point(p[0], p[1]))).ravel()
+    got = [int(v) for v in res.tolist()]
+    mb = R.min_bary(T, np.array([p]))[:, 0]
+    want = set(int(j) for j in np.nonzero(mb >= 0.01)[0])
+    if not want:
+        ctx.tie()
+        ctx.label("zoom:point-near-child-edge")
+    miss = sorted(want - set(got))
+    ctx.check(not miss, "containing/%s/point/zoom" % rep.name,
+              lambda: "zoom point %r lies in triangle %d %s (min barycentric %r) but containing_indices returned "
+                      "%s (side %r)" % (p, miss[0], T[miss[0]].tolist(), float(mb[miss[0]]), got[:10], S))
+    idx = []
+    for j in got:
+        if 0 <= j < len(T) and j not in idx:
+            idx.append(j)
+    if not idx:   # tie band (or a reported failure): carry on with the oracle's best triangle
+        idx = [int(np.argmax(mb))]
+    sel, G = check_sel(ctx, rep.name, rep.obj, T, idx)
+    rep.obj, rep.T = sel, G
+
+
+def battery(ctx, reps, S, ops, shapes, zoom=None):
     T0 = reps[0].T
     tolv = _tol(T0, S)
     ori = R.orientation(T0, tolv)
@@ -351,15 +528,22 @@ def battery(ctx, reps, S, ops, shapes):
     ctx.nt(both and len(T0) >= 3)
     ctx.label("orient:both" if both else "orient:single", "n0:%s" % ("1" if len(T0) == 1 else "2" if len(T0) == 2
                                                                     else "3-9" if len(T0) < 10 else "10+"))
-    mult = (R.min_bary(T0, T0.mean(axis=1)) > BARY_IN).sum(axis=1)
+    ctx.label("side:%s" % ("<=1e-9" if S <= 1e-9 else "1e-9..1e-5" if S <= 1e-5 else "1e-5..1e-2" if S <= 1e-2
+                           else "1e-2..1e2" if S <= 1e2 else ">1e2"))
+    mult = (R.min_bary(T0, T0.mean(axis=1)) > BARY_IN + 4 * _rel(T0, S)).sum(axis=1)
     if len(T0) and mult.max() > 1:
         ctx.label("input:duplicate-triangles")
+    zp = None
+    if zoom is not None:
+        zp = _ref_point({"at": "interior", "place": zoom["place"]}, T0[zoom["k"] % len(T0)])
+
     def hits():
         return ctx.excluded_hits + sum(ctx.known_hits.values())
 
     h0 = hits()
-    _after(ctx, reps, S, "initial", shapes)
-    ups = 0
+    together = True
+    _after(ctx, reps, S, "initial", shapes, together)
+    ups = zooms = 0
     for op in ops:
         if hits() != h0:
             # a step already failed with a key that is known / already reported in this run: the state is
@@ -369,7 +553,7 @@ def battery(ctx, reps, S, ops, shapes):
         n = len(reps[0].T)
         kind = op["op"]
         if kind == "up":
-            if n > MAX_UP:
+            if max(len(r.T) for r in reps) > MAX_UP:
                 ctx.label("skipped:up-too-large")
                 continue
             for r in reps:
@@ -379,7 +563,7 @@ def battery(ctx, reps, S, ops, shapes):
             S = S / 2.0
             ups += 1
         elif kind == "nb":
-            if n > MAX_NB:
+            if max(len(r.T) for r in reps) > MAX_NB:
                 ctx.label("skipped:nb-too-large")
                 continue
             for r in reps:
@@ -387,7 +571,18 @@ def battery(ctx, reps, S, ops, shapes):
                 r.T = check_nb(ctx, r.name, r.T, nb, S)
                 r.obj = nb
             ctx.label("nb-after-up" if ups else "nb-at-level0")
+        elif kind == "zoom":
+            for r in reps:
+                _zoom_step(ctx, r, zp, S)
+            zooms += 1
+            if len(reps) == 2 and together:
+                a, b = reps
+                if len(a.T) != len(b.T) or (R.match(a.T, b.T, _tol(a.T, S)) < 0).any():
+                    together = False   # the two forms picked different boundary triangles: compare no further
+                    ctx.label("zoom:representations-diverged")
         elif kind == "sel":
+            if not together:
+                continue
             idx = _sel_indexes(op, n)
             ctx.label("sel:empty" if not idx else "sel:all" if len(idx) == n else "sel:proper-subset")
             want = reps[0].T[np.array(idx, dtype=int)]
@@ -403,10 +598,13 @@ def battery(ctx, reps, S, ops, shapes):
                 r.obj, r.T = sel, G
         else:
             raise AssertionError("unknown op %r" % kind)
-        _after(ctx, reps, S, kind, shapes)
+        _after(ctx, reps, S, kind, shapes, together)
         if len(reps[0].T) == 0:
             break
-    ctx.label("ups:%d" % ups)
+    ctx.label("ups:%s" % (ups if ups <= 3 else "4-29" if ups < 30 else "30+"))
+    if zooms:
+        ctx.label("final-side:%s" % ("<=1e-11" if S <= 1e-11 else "<=1e-9" if S <= 1e-9 else "<=1e-6" if S <= 1e-6
+                                     else ">1e-6"))
 
 
 def _coord_reps(ctx, obj):
@@ -420,28 +618,75 @@ def _coord_reps(ctx, obj):
 # strategies
 # ---------------------------------------------------------------------------------------------
 SIDES = [0.05, 0.1, 0.5, 1.0, 2.0, 20.0]
+TENS = [1e-10, 1e-8, 1e-6, 1e-4, 1e3, 1e6]
 
 
 def sides():
     return st.one_of(st.sampled_from(SIDES), st.floats(0.05, 20.0, allow_nan=False))
 
 
+def wide_sides():
+    """Side lengths over many decades: 2**-40 .. 2**20 and powers of ten."""
+    return st.one_of(st.integers(-40, 20).map(lambda k: 2.0 ** k), st.integers(-40, -20).map(lambda k: 2.0 ** k),
+                     st.sampled_from(TENS))
+
+
+@st.composite
+def magnitudes(draw):
+    """(regime, side, x offset, y offset); offsets scale with the side except in the offset-dominated regime."""
+    regime = draw(st.sampled_from(["unit", "unit", "scaled", "scaled", "offset-dominated"]))
+    if regime == "unit":
+        return regime, draw(sides()), draw(gens.reals(-50, 50)), draw(gens.reals(-50, 50))
+    if regime == "scaled":
+        s = draw(wide_sides())
+        return regime, s, draw(gens.reals(-3, 3)) * s, draw(gens.reals(-3, 3)) * s
+    s = 2.0 ** draw(st.integers(-30, -5))
+    return regime, s, draw(gens.reals(-2, 2)), draw(gens.reals(-2, 2))
+
+
+@st.composite
+def placements(draw):
+    mode = draw(st.sampled_from(["generic", "generic", "near-edge", "near-edge", "near-vertex", "centroid"]))
+    if mode == "generic":
+        return {"mode": mode, "u": [draw(st.floats(0.0, 1.0)) for _ in range(3)]}
+    if mode == "near-edge":
+        return {"mode": mode, "e": draw(st.integers(0, 2)), "a": draw(st.floats(0.0, 1.0)), "t": draw(st.floats(0.0, 1.0))}
+    if mode == "near-vertex":
+        return {"mode": mode, "e": draw(st.integers(0, 2))}
+    return {"mode": mode}
+
+
 @st.composite
 def shape_specs(draw):
-    kind = draw(st.sampled_from(["point", "circle", "square", "triangle", "polygon"]))
+    kind = draw(st.sampled_from(["point", "circle", "square", "square", "triangle", "polygon"]))
     at = "interior"
     if kind in ("point", "circle", "square"):
-        at = draw(st.sampled_from(["interior", "interior", "vertex"]))
+        at = draw(st.sampled_from(["interior", "interior", "interior", "vertex"]))
     spec = {"kind": kind, "at": at, "k": draw(st.integers(0, 10 ** 6)), "corner": draw(st.integers(0, 2)),
-            "u": [draw(st.floats(0.0, 1.0)) for _ in range(3)]}
+            "place": draw(placements())}
+    size = draw(st.sampled_from(["comparable", "comparable", "comparable", "tiny", "zero"]))
+    # long half-extent in units of the side: full extent 0.3x .. 3x for the comparable class
+    L = {"comparable": st.floats(0.15, 1.5), "tiny": st.floats(0.005, 0.05), "zero": st.just(0.0)}[size]
+    aspect = draw(st.sampled_from(["1:1", "wide", "tall"]))
+    ratio = draw(st.one_of(st.sampled_from([2.0, 3.0, 4.0]), st.floats(2.0, 4.0)))
     if kind == "circle":
-        spec["r"] = draw(st.one_of(st.just(0.0), st.floats(0.0, 3.0)))
+        spec["r"] = draw(L)
     elif kind == "square":
-        spec["hx"] = draw(st.one_of(st.just(0.0), st.floats(0.0, 3.0)))
-        spec["hy"] = draw(st.one_of(st.just(0.0), st.floats(0.0, 3.0)))
+        h = draw(L)
+        spec["hx"], spec["hy"] = (h, h) if aspect == "1:1" else (h, h / ratio) if aspect == "wide" else (h / ratio, h)
+        if size == "comparable" and draw(st.booleans()):
+            spec["directed"] = {"j": draw(st.integers(0, 2)), "mx": draw(st.floats(0.02, 0.5)),
+                                "my": draw(st.floats(0.02, 0.5))}
     elif kind in ("triangle", "polygon"):
         n = 3 if kind == "triangle" else draw(st.integers(3, 6))
-        spec["pts"] = [[draw(st.floats(0.05, 3.0)), draw(st.floats(0.0, 0.8))] for _ in range(n)]
+        lo, hi = (0.5, 1.0) if size != "tiny" else (0.02, 0.033)   # radii; the bounding box then spans ~0.75x-2x / tiny
+        if size == "zero":
+            lo, hi = 0.02, 0.033
+        spec["pts"] = [[draw(st.floats(lo, hi)), draw(st.floats(0.0, 0.8))] for _ in range(n)]
+        spec["stretch"] = [1.0, 1.0] if aspect == "1:1" else [1.5, 1.5 / ratio] if aspect == "wide" else [1.5 / ratio, 1.5]
+        if size == "comparable" and draw(st.booleans()):
+            spec["directed"] = {"j": draw(st.integers(0, 2)), "w": draw(st.floats(0.1, 0.4)),
+                                "reading": draw(st.sampled_from(["natural", "transposed"]))}
     return spec
 
 
@@ -472,9 +717,9 @@ def op_lists(draw, max_ops=4, max_up=3):
 
 
 @st.composite
-def coord_sets(draw):
-    fam = draw(st.sampled_from(["cluster", "block", "row", "hexagon", "scatter"]))
-    bx, by = draw(st.integers(-30, 30)), draw(st.integers(-30, 30))
+def coord_lists(draw, span=30, families=("cluster", "block", "row", "hexagon", "scatter")):
+    fam = draw(st.sampled_from(list(families)))
+    bx, by = draw(st.integers(-span, span)), draw(st.integers(-span, span))
     if fam == "cluster":
         cells = [[dx, dy] for dx in range(-3, 4) for dy in range(-2, 3)]
         pick = draw(st.lists(st.sampled_from(cells), min_size=1, max_size=10, unique_by=tuple))
@@ -490,11 +735,18 @@ def coord_sets(draw):
         drop = draw(st.lists(st.integers(0, 5), max_size=2, unique=True))
         coords = [c for i, c in enumerate(coords) if i not in drop]
     else:
-        coords = draw(st.lists(st.lists(st.integers(-40, 40), min_size=2, max_size=2), min_size=1, max_size=8,
-                               unique_by=tuple))
+        coords = draw(st.lists(st.lists(st.integers(-span - 10, span + 10), min_size=2, max_size=2), min_size=1,
+                               max_size=8, unique_by=tuple))
     coords = draw(st.permutations(coords))
-    return {"family": fam, "coords": [list(c) for c in coords], "side": draw(sides()),
-            "xo": draw(gens.reals(-50, 50)), "yo": draw(gens.reals(-50, 50)), "flipped": draw(st.booleans())}
+    return fam, [list(c) for c in coords]
+
+
+@st.composite
+def coord_sets(draw):
+    fam, coords = draw(coord_lists())
+    regime, side, xo, yo = draw(magnitudes())
+    return {"family": fam, "coords": coords, "regime": regime, "side": side, "xo": xo, "yo": yo,
+            "flipped": draw(st.booleans())}
 
 
 @st.composite
@@ -512,13 +764,15 @@ def body_coords_ops(case, ctx):
              flipped=case["flipped"])
     par = (coords[:, 0] + coords[:, 1]) % 2
     ctx.label("family:%s" % case.get("family", "?"), "flipped:%s" % bool(case["flipped"]),
+              "regime:%s" % case.get("regime", "unit"),
               "parity:both" if (par == 0).any() and (par == 1).any() else "parity:%d" % par[0])
     battery(ctx, _coord_reps(ctx, obj), float(case["side"]), case["ops"], case["shapes"])
 
 
 @st.composite
 def limits_cases(draw, min_extent):
-    return {"scale": draw(sides()), "cx": draw(gens.reals(-10, 10)), "cy": draw(gens.reals(-10, 10)),
+    return {"scale": draw(st.one_of(sides(), wide_sides())),
+            "cx": draw(gens.reals(-10, 10)), "cy": draw(gens.reals(-10, 10)),
             "wx": draw(st.one_of(st.sampled_from([min_extent, 0.5, 1.0, 2.0]), st.floats(min_extent, 2.5))),
             "wy": draw(st.one_of(st.sampled_from([min_extent, 0.5, 1.0, 2.0]), st.floats(min_extent, 2.5))),
             "ops": draw(op_lists(max_ops=3, max_up=2)),
@@ -553,6 +807,50 @@ def body_limits_array(case, ctx):
 
 
 # ---------------------------------------------------------------------------------------------
+# the zoom loop: up_sample -> containing_indices(point) -> for_indexes (-> neighborhood), 30-40 times
+# ---------------------------------------------------------------------------------------------
+@st.composite
+def zoom_cases(draw):
+    source = draw(st.sampled_from(["coords", "coords", "array-lattice"]))
+    start = draw(st.sampled_from(["side-1", "side-1", "pow2"]))
+    side = 1.0 if start == "side-1" else 2.0 ** draw(st.integers(-8, 8))
+    case = {"source": source, "side": side, "depth": draw(st.integers(30, 40)),
+            "with_nb": draw(st.sampled_from([False, False, True])),
+            "zoom": {"k": draw(st.integers(0, 10 ** 6)),
+                     "place": {"mode": "generic", "u": [draw(st.floats(0.0, 1.0)) for _ in range(3)]}},
+            "shapes": [draw(shape_specs())]}
+    if source == "coords":
+        _, case["coords"] = draw(coord_lists(span=1, families=("cluster", "block", "row", "hexagon")))
+        case["coords"] = case["coords"][:6]
+        case["xo"] = draw(gens.reals(-1, 1)) * side
+        case["yo"] = draw(gens.reals(-1, 1)) * side
+        case["flipped"] = draw(st.booleans())
+    else:
+        case["cx"], case["cy"] = draw(gens.reals(-1, 1)), draw(gens.reals(-1, 1))
+        case["wx"], case["wy"] = draw(st.floats(0.05, 1.5)), draw(st.floats(0.05, 1.5))
+    return case
+
+
+def body_zoom(case, ctx):
+    CT, AT, _ = _classes()
+    s = float(case["side"])
+    if case["source"] == "coords":
+        coords = np.array(case["coords"], dtype=int).reshape(-1, 2)
+        obj = CT(coordinates=coords, side_length=s, x_offset=case["xo"], y_offset=case["yo"], flipped=case["flipped"])
+        reps = _coord_reps(ctx, obj)
+    else:
+        x_min, y_min = case["cx"] * s, case["cy"] * s
+        obj = AT.for_limits_and_scale(y_min, y_min + case["wy"] * s, x_min, x_min + case["wx"] * s, s)
+        reps = [Rep("array", obj, _tri(ctx, obj, "for_limits_and_scale/array"))]
+    ops = []
+    for _ in range(case["depth"]):
+        ops += [{"op": "up"}, {"op": "zoom"}] + ([{"op": "nb"}] if case["with_nb"] else [])
+    ctx.label("source:%s" % case["source"], "start:%s" % ("side-1" if s == 1.0 else "other"),
+              "loop:%s" % ("up-contain-select-nb" if case["with_nb"] else "up-contain-select"))
+    battery(ctx, reps, s, ops, case["shapes"], zoom=case["zoom"])
+
+
+# ---------------------------------------------------------------------------------------------
 # exhaustive small sets
 # ---------------------------------------------------------------------------------------------
 ENUM_SHAPES = [
@@ -566,6 +864,14 @@ ENUM_SHAPES = [
      "pts": [[0.02, 0.1], [0.03, 0.2], [0.02, 0.3]]},
     {"kind": "polygon", "at": "interior", "k": 5, "corner": 0, "u": [0.4, 0.1, 0.5],
      "pts": [[0.02, 0.0], [0.03, 0.1], [0.02, 0.2], [0.01, 0.3], [0.02, 0.4]]},
+    {"kind": "square", "at": "interior", "k": 0, "corner": 0, "place": {"mode": "near-vertex", "e": 0},
+     "hx": 0.6, "hy": 0.15},
+    {"kind": "square", "at": "interior", "k": 1, "corner": 0, "place": {"mode": "near-edge", "e": 1, "a": 0.5, "t": 0.3},
+     "hx": 0.5, "hy": 0.5, "directed": {"j": 0, "mx": 0.1, "my": 0.1}},
+    {"kind": "polygon", "at": "interior", "k": 0, "corner": 0, "place": {"mode": "near-vertex", "e": 2},
+     "pts": [[0.5, 0.0]] * 4, "directed": {"j": 0, "w": 0.2, "reading": "transposed"}},
+    {"kind": "triangle", "at": "interior", "k": 1, "corner": 0, "place": {"mode": "near-edge", "e": 0, "a": 0.0, "t": 0.5},
+     "pts": [[0.5, 0.0]] * 3, "directed": {"j": 1, "w": 0.2, "reading": "natural"}},
 ]
 ENUM_OPS = [
     [{"op": "nb"}, {"op": "up"}, {"op": "sel", "mode": "stride", "start": 1, "step": 1}, {"op": "up"}],
@@ -575,7 +881,9 @@ ENUM_OPS = [
 
 def cases_enum_small(tier):
     import itertools
-    geoms = [(1.0, 0.25, -0.4)] if tier == "quick" else [(1.0, 0.25, -0.4), (0.3, -7.5, 3.125), (20.0, 0.0, 0.0)]
+    geoms = [(1.0, 0.25, -0.4), (2.0 ** -33, 0.25 * 2.0 ** -33, -0.4 * 2.0 ** -33)]
+    if tier != "quick":
+        geoms += [(0.3, -7.5, 3.125), (20.0, 0.0, 0.0), (2.0 ** 20, 3.0 * 2.0 ** 20, 0.0), (1e-10, 0.0, 2e-10)]
     sets = [[[x, y]] for x in range(-2, 3) for y in range(-2, 3)]
     window = [[x, y] for y in (0, 1) for x in (0, 1, 2)]
     for k in (2, 3):
@@ -584,20 +892,24 @@ def cases_enum_small(tier):
         window2 = [[x, y] for y in (-1, 0) for x in (-2, -1, 0, 1)]
         for k in (2, 3, 4):
             sets += [list(map(list, c)) for c in itertools.combinations(window2, k)]
-    for side, xo, yo in geoms:
+    for gi, (side, xo, yo) in enumerate(geoms):
         for coords in sets:
+            if tier == "quick" and gi == 1 and len(coords) == 1 and (abs(coords[0][0]) == 2 or abs(coords[0][1]) == 2):
+                continue   # quick: the tiny-side geometry runs on the inner singles and all the subsets only
             for flipped in (False, True):
                 for oi, ops in enumerate(ENUM_OPS):
-                    yield {"family": "enum", "coords": coords, "side": side, "xo": xo, "yo": yo, "flipped": flipped,
-                           "ops": ops, "shapes": ENUM_SHAPES}
+                    yield {"family": "enum", "coords": coords, "regime": "unit" if gi == 0 else "scaled",
+                           "side": side, "xo": xo, "yo": yo, "flipped": flipped, "ops": ops, "shapes": ENUM_SHAPES}
 
 
 SUBCHECKS = [
-    SubCheck("enum_small", body_coords_ops, cases=cases_enum_small, shards={"quick": 4, "thorough": 16}),
+    SubCheck("enum_small", body_coords_ops, cases=cases_enum_small, shards={"quick": 6, "thorough": 16}),
     SubCheck("coords_ops", body_coords_ops, strategy=coords_ops_cases(), examples={"quick": 640, "thorough": 16000},
              shards={"quick": 8, "thorough": 32}),
     SubCheck("limits_coord", body_limits_coord, strategy=limits_cases(0.0), examples={"quick": 120, "thorough": 1600},
              shards={"quick": 2, "thorough": 8}),
     SubCheck("limits_array", body_limits_array, strategy=limits_cases(0.05), examples={"quick": 120, "thorough": 1600},
              shards={"quick": 2, "thorough": 8}),
+    SubCheck("zoom", body_zoom, strategy=zoom_cases(), examples={"quick": 48, "thorough": 640},
+             shards={"quick": 8, "thorough": 16}),
 ]
